@@ -27,7 +27,14 @@ libnng:
 	    -DBUILD_SHARED_LIBS=OFF -DNNG_ENABLE_TLS=OFF -DNNG_ENABLE_NNGCAT=OFF \
 	    -DCMAKE_EXPORT_COMPILE_COMMANDS=ON > $(B)/cmake.log 2>&1 || (cat $(B)/cmake.log; exit 1); \
 	fi
-	@ninja -C $(NNGB) > $(B)/ninja.log 2>&1 || (tail -50 $(B)/ninja.log; exit 1)
+	@ninja -C $(NNGB) > $(B)/ninja.log 2>&1 || { \
+	  echo "ninja failed in $(NNGB): configuring afresh and trying once more (stale or time-skewed build directory?)"; \
+	  rm -rf $(NNGB); \
+	  cmake -G Ninja -S $(REPO) -B $(NNGB) -DCMAKE_BUILD_TYPE=None \
+	    -DCMAKE_C_FLAGS="$(NNG_CFLAGS)" -DNNG_TESTS=OFF -DNNG_TOOLS=OFF \
+	    -DBUILD_SHARED_LIBS=OFF -DNNG_ENABLE_TLS=OFF -DNNG_ENABLE_NNGCAT=OFF \
+	    -DCMAKE_EXPORT_COMPILE_COMMANDS=ON > $(B)/cmake.log 2>&1 || (cat $(B)/cmake.log; exit 1); \
+	  ninja -C $(NNGB) > $(B)/ninja.log 2>&1 || (tail -50 $(B)/ninja.log; exit 1); }
 
 $(NNGB)/libnng.a: libnng
 
